@@ -72,9 +72,15 @@ def build_l4gen():
         return binp
     env = goenv()
     env["GOFLAGS"] = "-mod=mod"
-    rc, out, _ = run(["go", "build", "-o", binp, "."], cwd=src, env=env, timeout=300)
+    rc, out, _ = run(["go", "build", "-o", binp + ".new", "."], cwd=src, env=env, timeout=300)
     if rc != 0:
+        if os.path.exists(binp):
+            # keep working with the last translator that built (another builder may be mid-edit);
+            # a fresh restore has no previous binary, so there the failure is fatal
+            sys.stderr.write("WARNING: tools/l4gen does not build, using the previous binary:\n" + out[-800:] + "\n")
+            return binp
         raise RuntimeError("building l4gen failed:\n" + out)
+    os.replace(binp + ".new", binp)
     return binp
 
 
